@@ -20,11 +20,12 @@ def clear_graph_accumulator():
         d[0].clear()
 
 
-def run_service(case: dict, project: str = "Site", full: bool = True):
+def run_service(case: dict, project: str = "Site", full: bool = True, clear: bool = True):
     """(True, (TargetOutput, master Zone)) or (False, exception signature)."""
     from OpenPinch.main import pinch_analysis_service
 
-    clear_graph_accumulator()
+    if clear:
+        clear_graph_accumulator()
     payload = copy.deepcopy({k: v for k, v in case.items() if k in ("streams", "utilities", "options", "zone_tree") and v is not None})
     return call_sut(pinch_analysis_service, payload, project, full)
 
